@@ -32,7 +32,7 @@ pub fn case(ctx: &Ctx, shard: usize, index: u64, rep: &mut Report) {
             (((w + 3) / 4 * 4).clamp(4, 2048), ((h + 3) / 4 * 4).clamp(4, 1152))
         }
     };
-    let long = rng.chance(1, 300);
+    let long = flavour != Flavour::StdFixed && rng.chance(1, 300);
     let (mut w, mut h) = if long { (16, 16) } else { pick_size(&mut rng) };
     // a few very long streams in one reader (buffer growth, counters, thousands of bytes consumed)
     let n = if long { 260 + rng.below(400) as usize } else { 2 + rng.below(7) as usize };
@@ -125,6 +125,100 @@ pub fn case(ctx: &Ctx, shard: usize, index: u64, rep: &mut Report) {
     }
 }
 
+/// Compare a prepared sequence of complete pictures in one reader against one reader per picture.
+/// `pics`: (padded bytes, data bits before padding, kind).
+fn compare_sequence(sorenson: bool, pics: &[(Vec<u8>, usize, char)], what: &str, rep: &mut Report, coords: &dyn Fn() -> J) -> bool {
+    let all: Vec<u8> = pics.iter().flat_map(|p| p.0.iter().copied()).collect();
+    let mut shared = Dec::new(sorenson, false);
+    let mut twin = Dec::new(sorenson, false);
+    let (src, _data, delivered) = CountRead::new(&all);
+    let mut rd = H263Reader::from_source(src);
+    let mut start = 0usize;
+    rep.evaluations += 1;
+    for (i, (bytes, nbits, kind)) in pics.iter().enumerate() {
+        let ot = twin.decode(bytes);
+        let os = shared.decode_with(&mut rd);
+        if let Outcome::Panic { msg, loc } = &os {
+            rep.violation(format!("panic@{}", loc), format!("{}: call {} on the shared reader panicked: {}", what, i, msg), coords());
+            return false;
+        }
+        if ot != Outcome::Ok {
+            rep.count(&format!("ladder_void:own-reader-failed:{}", ot.short()));
+            return false;
+        }
+        if os != ot {
+            rep.violation(format!("ladder/outcome/{}", os.short()), format!("{}: picture {} ({}, {} bytes) decodes in its own reader but call {} on the shared reader gave {}", what, i, kind, bytes.len(), i, os.short()), coords());
+            return false;
+        }
+        if shared.snapshot() != twin.snapshot() {
+            rep.violation("ladder/picture-differs", format!("{}: call {} ({}) produced a different picture than the same bytes in their own reader", what, i, kind), coords());
+            return false;
+        }
+        let p = abs_pos(&rd, &delivered);
+        let (lo, hi) = (start + nbits, start + bytes.len() * 8);
+        if p < lo || p > hi {
+            rep.violation(format!("ladder/position/{}", if p < lo { "short" } else { "overrun" }), format!("{}: after call {} ({}) the reader is at bit {}, picture data ends at {} and its padding at {}", what, i, kind, p, lo, hi), coords());
+            return false;
+        }
+        start += bytes.len() * 8;
+    }
+    true
+}
+
+fn padded(p: &crate::model::syntax::SymPicture, kind: char) -> (Vec<u8>, usize, char) {
+    let (mut bw, offs) = p.encode_bits();
+    let nbits = *offs.last().unwrap();
+    bw.align();
+    (bw.bytes, nbits, kind)
+}
+
+/// Boundary-value ladder: large pictures (macroblock counts around 2^12..2^14, extreme dimensions)
+/// and pictures with a huge coded size (4 KiB / 64 KiB / 1 MiB of stuffing) followed by more pictures.
+pub fn ladder(ctx: &Ctx, k: usize, rep: &mut Report) {
+    use super::ladder as L;
+    let mut rng = Rng::new(ctx.seed ^ 0xC15AD, k as u64);
+    let coords = || J::obj().set("property", "C15").set("kind", "ladder").set("tier", ctx.tier_name()).set("seed", ctx.seed).set("stage", ctx.stage.clone()).set("k", k);
+    let sizes = [(1040usize, 1024usize), (2064, 1024), (2048, 2064), (65535, 16), (16, 65535), (65521, 3), (4097, 9), (1024, 1024), (512, 512), (2048, 1152)];
+    if k < sizes.len() {
+        let (w, h) = sizes[k];
+        let flavour = if k == sizes.len() - 1 { Flavour::StdPlus } else { Flavour::Sor((k % 2) as u8) };
+        let mut cfg = L::cfg_for(&mut rng, flavour, w, h, 0);
+        let i0 = padded(&L::large_intra(&mut rng, &cfg), 'I');
+        cfg.tr = cfg.tr.wrapping_add(1);
+        let p0 = padded(&L::large_inter(&mut rng, &cfg, false, None), 'P');
+        cfg.tr = cfg.tr.wrapping_add(1);
+        let p1 = padded(&L::large_inter(&mut rng, &cfg, flavour.sorenson(), None), 'D');
+        let small = L::cfg_for(&mut rng, flavour, 16, 16, 0);
+        let i1 = padded(&L::large_intra(&mut rng, &small), 'I');
+        if compare_sequence(flavour.sorenson(), &[i0, p0, p1, i1], &format!("large {}x{} {} I,P,D then a small I", w, h, flavour.name()), rep, &coords) {
+            rep.count("ladder_large_sequences");
+        }
+    } else {
+        // coded size ladder: stuffing codes make the picture about `bytes` long; the end phase varies with the content
+        let bytes = [4000usize, 4096, 4200, 65000, 65536, 66000, 1_048_000, 1_049_600, 1_100_000][(k - sizes.len()) % 9];
+        let flavour = Flavour::Sor((k % 2) as u8);
+        let inter_first = k % 4 == 3;
+        let mut seq = vec![];
+        let c0 = L::cfg_for(&mut rng, flavour, 32, 32, 0);
+        if inter_first {
+            seq.push(padded(&L::large_intra(&mut rng, &c0), 'I'));
+        }
+        // model-side, stuffing is part of the picture's macroblock data: the end of data is after the last macroblock
+        let sp = L::stuffed_picture(&mut rng, flavour, bytes, inter_first);
+        seq.push(padded(&sp, if inter_first { 'P' } else { 'I' }));
+        let mut c1 = c0.clone();
+        c1.tr = c1.tr.wrapping_add(9);
+        seq.push(padded(&L::large_inter(&mut rng, &c1, false, None), 'P'));
+        seq.push(padded(&L::large_intra(&mut rng, &c1), 'I'));
+        if compare_sequence(true, &seq, &format!("picture with about {} bytes of stuffing, then P and I", bytes), rep, &coords) {
+            rep.count("ladder_stuffed_sequences");
+            rep.count(&format!("ladder_stuffed_end_phase={}", seq[if inter_first { 1 } else { 0 }].1 % 8));
+        }
+    }
+}
+
+pub const LADDER_N: usize = 10 + 18;
+
 pub fn run(ctx: &Ctx) -> (Report, String) {
     let per_shard = ctx.n(3000, 40000);
     let reps = par_shards(64, ctx.threads, |s| {
@@ -135,6 +229,16 @@ pub fn run(ctx: &Ctx) -> (Report, String) {
         rep
     });
     let mut rep = Report::merge_all(reps);
+    if !ctx.miri() && ctx.is_main() {
+        let lr = par_shards(LADDER_N, ctx.threads, |k| {
+            let mut r = Report::new();
+            crate::mon::guarded(&mut r, || J::obj().set("property", "C15").set("kind", "ladder").set("k", k), |r| ladder(ctx, k, r));
+            r
+        });
+        rep.merge(Report::merge_all(lr));
+        rep.require("ladder_large_sequences", 9);
+        rep.require("ladder_stuffed_sequences", 16);
+    }
     if ctx.is_main() {
         let m = ctx.scale_pct;
         rep.require("sequences_completed", if ctx.tier == Tier::Thorough { 2_000_000 } else { 150_000 } * m / 100);
